@@ -123,7 +123,7 @@ def summarise(r):
 
 def _brief(op):
     if op['op'] == 'parse':
-        b = {'parse': op['mod'], 'entry': op['entry'], 'text': op['text'][:40], 'pos': op['pos'], 'full': op['full']}
+        b = {'parse': op['mod'], 'entry': op['entry'], 'text': (op['text'] if isinstance(op['text'], list) else op['text'][:40]), 'pos': op['pos'], 'full': op['full']}
         if op.get('script'):
             b['script'] = {k: ('nest' if isinstance(v, dict) else v) for k, v in op['script'].items()}
         return b
